@@ -136,6 +136,23 @@ func (sh *Shared) lookupHandler(fn *ssa.Function) handler {
 		// methods of instantiated or external types: derive from the name
 	}
 	switch {
+	case strings.HasPrefix(name, "github.com/golang/glog.") && fn.Signature.Variadic() && fn.Signature.Results().Len() == 0:
+		// unconditional logging formats its operands (String()/Error() of in-repo types run)
+		withFormat := strings.HasSuffix(fn.Name(), "f")
+		return func(e *Exec, fn *ssa.Function, a []Value) Value {
+			if withFormat && len(a) == 2 {
+				if f, ok := a[0].(Str); ok {
+					if va, ok := a[1].(Slice); ok {
+						e.callStringers(f.conc, f.isConc(), va)
+					}
+				}
+			} else if len(a) == 1 {
+				if va, ok := a[0].(Slice); ok {
+					e.callStringers("", false, va)
+				}
+			}
+			return nil
+		}
 	case strings.HasPrefix(name, "github.com/golang/glog.") || strings.HasPrefix(name, "(github.com/golang/glog.Verbose).") || strings.HasPrefix(name, "(*github.com/golang/glog."):
 		return noop
 	case fn.Name() == "init" && fn.Pkg != nil && fn.Synthetic != "" && !runsInitPath(pkg):
